@@ -2,6 +2,7 @@ import DV.Model.Dense
 import DVP.Lemmas.Bisect
 import DVP.Lemmas.Hermite
 import DVP.Lemmas.SlopeCache
+import DVP.Lemmas.HermiteError
 /-!
 # C06 — dense output is a consistent continuous extension of the computed trajectory
 
@@ -14,8 +15,10 @@ values and end slopes and every cubic; on data taken from a QUARTIC the interpol
 `e (t - t0)^2 (t - t1)^2` (`e` the leading coefficient, i.e. `p/24`), hence at most `|p| h^4 / 384` inside the
 step, with equality at the midpoint - the `O(h⁴)` clause with its sharp classical constant, for the first
 polynomial degree the piece does not reproduce (`interpolation_error_on_quartic`, `…_bound`, `…_sharp`).
-**Not proved** (numerical analysis / outside the model): the
-`O(h⁴)` interpolation error for general smooth data (Peano kernel bound for cubic Hermite interpolation, cited), that the end
+For EVERY four times differentiable function the classical error formula `f - H = f4(ξ)/24 (t - t0)^2 (t - t1)^2` and the bound
+`max|f4| h^4/384` (`f4` the fourth derivative) are proved as well (`interpolation_error_smooth`, `…_bound`; four rounds of Rolle's theorem
+on the regenerated piece).
+**Not proved** (outside the model): that the trajectory the pieces interpolate is the exact solution (the integrator's own error, C05), that the end
 end slope computed by a step is the right-hand side at its end state (C02's step theorems give it for
 the explicit model; measured on the implementation for every method family), Richardson wrappers.
 **Proved as well** (`DV.SlopeCache`, tied to the code by replaying call sequences with jumps, repeated
@@ -109,6 +112,48 @@ theorem interpolation_error_on_quartic_sharp {K : Type} [Field K] [CharZero K] [
   have h2 : (2 : K) ≠ 0 := by exact_mod_cast (two_ne_zero : (2 : ℕ) ≠ 0)
   field_simp
   ring
+
+/-- **The interpolation error is `O(h⁴)` for every four times differentiable function** (the classical theorem,
+proved here for the library's own piece - `call` is the regenerated `CubicHermiteInterp.__call__`): if the data of
+the piece are the values and slopes of `f` at its two ends, then for every `x` strictly inside the piece (either
+orientation) there is a `ξ` strictly inside with `f x - H x = f4(ξ)/24 · (x - t0)² (x - t1)²`, `f4` the fourth
+derivative of `f`.  (Four rounds of Rolle's theorem, `DVP/Lemmas/HermiteError.lean`.) -/
+theorem interpolation_error_smooth [DecidableEq ℝ] (f f1 f2 f3 f4 : ℝ → ℝ)
+    (h0 : ∀ s, HasDerivAt f (f1 s) s) (h1 : ∀ s, HasDerivAt f1 (f2 s) s)
+    (h2 : ∀ s, HasDerivAt f2 (f3 s) s) (h3 : ∀ s, HasDerivAt f3 (f4 s) s)
+    (t0 t1 x : ℝ) (hx : (x - t0) * (x - t1) < 0) :
+    ∃ ξ, (ξ - t0) * (ξ - t1) < 0 ∧
+      f x - DVP.Gen.Hermite.call t0 t1 (f t0) (f t1) (f1 t0) (f1 t1) x = f4 ξ / 24 * ((x - t0) ^ 2 * (x - t1) ^ 2) :=
+  DVP.HermiteError.hermite_error f f1 f2 f3 f4 h0 h1 h2 h3 t0 t1 x hx
+
+/-- … hence `|f - H| ≤ M h⁴ / 384` inside the piece whenever `|f4| ≤ M` (the constant `1/384` is sharp:
+`interpolation_error_on_quartic_sharp`) -/
+theorem interpolation_error_smooth_bound [DecidableEq ℝ] (f f1 f2 f3 f4 : ℝ → ℝ)
+    (h0 : ∀ s, HasDerivAt f (f1 s) s) (h1 : ∀ s, HasDerivAt f1 (f2 s) s)
+    (h2 : ∀ s, HasDerivAt f2 (f3 s) s) (h3 : ∀ s, HasDerivAt f3 (f4 s) s)
+    (M : ℝ) (hM : ∀ s, |f4 s| ≤ M) (t0 t1 x : ℝ) (hx : (x - t0) * (x - t1) < 0) :
+    |f x - DVP.Gen.Hermite.call t0 t1 (f t0) (f t1) (f1 t0) (f1 t1) x| ≤ M / 384 * (t1 - t0) ^ 4 := by
+  obtain ⟨ξ, _, hE⟩ := DVP.HermiteError.hermite_error f f1 f2 f3 f4 h0 h1 h2 h3 t0 t1 x hx
+  rw [hE, abs_mul]
+  have hw0 : 0 ≤ (x - t0) ^ 2 * (x - t1) ^ 2 := by positivity
+  rw [abs_of_nonneg hw0, abs_div]
+  have hw : (x - t0) ^ 2 * (x - t1) ^ 2 ≤ (t1 - t0) ^ 4 / 16 := DVP.Hermite.node_product_bound t0 t1 x (le_of_lt hx)
+  have h24 : |(24 : ℝ)| = 24 := by norm_num
+  rw [h24]
+  have hM0 : 0 ≤ M := le_trans (abs_nonneg _) (hM ξ)
+  calc |f4 ξ| / 24 * ((x - t0) ^ 2 * (x - t1) ^ 2) ≤ M / 24 * ((t1 - t0) ^ 4 / 16) := by
+        apply mul_le_mul (div_le_div_of_nonneg_right (hM ξ) (by norm_num)) hw hw0 (by positivity)
+    _ = M / 384 * (t1 - t0) ^ 4 := by ring
+
+/-- non-vacuity: the quintic `s^5` meets the hypotheses of `interpolation_error_smooth` -/
+example [DecidableEq ℝ] : ∃ ξ : ℝ, (ξ - 0) * (ξ - 1) < 0 ∧
+    (1/2 : ℝ)^5 - DVP.Gen.Hermite.call (0:ℝ) 1 ((0:ℝ)^5) ((1:ℝ)^5) (5 * (0:ℝ)^4) (5 * (1:ℝ)^4) (1/2) = 120 * ξ / 24 * (((1/2:ℝ) - 0)^2 * ((1/2:ℝ) - 1)^2) := by
+  have h0 : ∀ s : ℝ, HasDerivAt (fun s : ℝ => s^5) (5 * s^4) s := fun s => by simpa using hasDerivAt_pow 5 s
+  have h1 : ∀ s : ℝ, HasDerivAt (fun s : ℝ => 5 * s^4) (20 * s^3) s := fun s => ((hasDerivAt_pow 4 s).const_mul 5).congr_deriv (by push_cast; ring)
+  have h2 : ∀ s : ℝ, HasDerivAt (fun s : ℝ => 20 * s^3) (60 * s^2) s := fun s => ((hasDerivAt_pow 3 s).const_mul 20).congr_deriv (by push_cast; ring)
+  have h3 : ∀ s : ℝ, HasDerivAt (fun s : ℝ => 60 * s^2) (120 * s) s := fun s => ((hasDerivAt_pow 2 s).const_mul 60).congr_deriv (by push_cast; ring)
+  exact interpolation_error_smooth (fun s => s^5) (fun s => 5 * s^4) (fun s => 20 * s^3) (fun s => 60 * s^2) (fun s => 120 * s)
+    h0 h1 h2 h3 0 1 (1/2) (by norm_num)
 
 /-- **The start slope of every step's dense piece is the right-hand side at the step's start**, after any
 history of calls on the integrator object: completed (with any number of rejected attempts before the
